@@ -199,7 +199,7 @@ End SAllDef.
 (* guard-free, on every expression inside *)
 Fixpoint gfe (e : exp) : bool :=
   match e with
-  | EUn u x => (match u with Neg => negb (sn (shape x)) | _ => true end) && gfe x
+  | EUn u x => (match u with Neg => negb (starts_neg (shape x)) | _ => true end) && gfe x
   | EParen x | FPos x | FNamed _ x | FLine _ x _ | EField x _ => gfe x
   | EBin _ l r | FKey l r | EIndex l r => gfe l && gfe r
   | ECall f _ args | EMethod f _ _ args => gfe f && forallb gfe args
